@@ -15,6 +15,7 @@
 import M4riProofs.MulR
 import M4riProofs.Strassen
 import M4riProofs.GenTie
+import M4riProofs.GenTieTab
 namespace M4ri.Props.C01
 open M4ri M4ri.BMat
 
@@ -105,5 +106,9 @@ theorem routes_agree (fuel cutoff k auto ntables thin thin' : Nat) (junk : Nat â
 #check @M4ri.GenTie.addsqrEvenSplit_eq
 #check @M4ri.GenTie.strassen_fuel64
 #check @M4ri.GenTie.parity64_eq
+
+
+/-! ### tie to the C text (generated by vlib/ctrans.py on every check, proved equal to the model in GenTieTab.lean) -/
+#check @M4ri.GenTieTab.mzdMakeTable_eq
 
 end M4ri.Props.C01
